@@ -38,8 +38,11 @@ class Subset(Harness):
                 inp["cond"] = {"kind": "mask", "mask": Arr("bool", [symx.sym_bool(f"m{i}") for i in range(n)])}
                 self.symbolic_note = "boolean mask"
             else:
-                v = sym_cell(self.kind, "v")
-                inp["cond"] = {"kind": self.variant, "col": "x", "value": scalar_of(v, self.kind)}
+                if self.kind == "O":
+                    inp["cond"] = {"kind": self.variant, "col": "x", "value": symx.SymPyInt(symx.sym_i64("v"))}
+                else:
+                    v = sym_cell(self.kind, "v")
+                    inp["cond"] = {"kind": self.variant, "col": "x", "value": scalar_of(v, self.kind)}
         elif m in ("slice", "slice_off"):
             if choice("rows_given", [True, False]):
                 k = choice("nidx", range(0, self.maxn + 1) if n > 0 else [0])
@@ -124,7 +127,7 @@ class Subset(Harness):
                 sel = lambda i: c["mask"].cells[i]
             else:
                 v = c["value"]
-                vc = as_cell(v, k)
+                vc = as_cell(v, k) if k != "O" else (v if not isinstance(v, int) or isinstance(v, symx.SymI64) else symx.SymPyInt(v))
                 sel = lambda i: np_eq(X[i], vc, k)
             keep_iff((lambda i: sel(i)) if m == "filter" else (lambda i: z3.Not(sel(i))))
         elif m == "slice" and inp["rows"] is None:
